@@ -36,11 +36,14 @@ FLAV = {
     "san": ["-O1", "-g1", "-fsanitize=address,undefined", "-fno-omit-frame-pointer",
             "-fno-sanitize-recover=undefined", "-D_GLIBCXX_ASSERTIONS"],
 }
+FLAV["cov"] = ["-O0", "-g1", "--coverage"]      # diagnostic only (tools/coverage.sh): which library code do the checks reach
 LINK = {
+    "cov": ["--coverage"],
     "fast": [],
     "san": ["-fsanitize=address,undefined"],
 }
 PARSER_EXTRA = {
+    "cov": [],
     "fast": [],
     "san": ["--param", "asan-stack=0"],
 }
@@ -147,7 +150,8 @@ def _build(repo, flavour, out):
             if _run([CXX] + COMMON + FLAV[flavour] + rec + inc + LINK[flavour] +
                     ["-o", os.path.join(out, name), os.path.join(HARNESS, f)], log):
                 raise RuntimeError("standalone failed\n" + "\n".join(log))
-    shutil.rmtree(os.path.join(out, "obj"), ignore_errors=True)
+    if flavour != "cov":      # the coverage notes (.gcno) and counts (.gcda) live next to the objects
+        shutil.rmtree(os.path.join(out, "obj"), ignore_errors=True)
     with open(os.path.join(out, "OK"), "w") as fh:
         fh.write("%.1f\n" % (time.time() - t0))
 
